@@ -167,10 +167,24 @@ const OPS_BARE: &[&str] = &[
 ];
 const OPS_LOAD: &[&str] = &["load-configuration"];
 
+/// the same reply with the base namespace bound to the prefix `nc:` (information-equivalent)
+fn prefixed(msg: &str) -> String {
+    let body = msg.strip_suffix(EOM).unwrap_or(msg);
+    let st = Style { pfx: true, ..Style::default() };
+    match xmlgen::restyle(body, &st, &[]) {
+        Ok(r) => format!("{r}{EOM}"),
+        Err(_) => msg.to_string(),
+    }
+}
+
 /// Run one operation against a reply body; returns (outcome, errs, detail)
 fn run_op(op: &str, body: &str) -> (String, Vec<u64>, String) {
+    run_op_ns(op, body, false)
+}
+
+fn run_op_ns(op: &str, body: &str, pfx: bool) -> (String, Vec<u64>, String) {
     let mut ws = WSess::with_caps(ALL_CAPS);
-    let reply = |id: u64| Some(reply_msg(id, body));
+    let reply = |id: u64| Some(if pfx { prefixed(&reply_msg(id, body)) } else { reply_msg(id, body) });
     macro_rules! go {
         ($ty:ty, $build:expr) => {{
             let (_sent, r) = call_rpc!(ws, $ty, $build, reply);
@@ -201,7 +215,7 @@ fn run_op(op: &str, body: &str) -> (String, Vec<u64>, String) {
             match drive(&mut outer, 8) {
                 Driven::Ready(Ok(fut)) => {
                     let id = ctl.sent().last().and_then(|m| message_id_of(m)).unwrap_or(0);
-                    ctl.push(reply_msg(id, body));
+                    ctl.push(if pfx { prefixed(&reply_msg(id, body)) } else { reply_msg(id, body) });
                     let mut inner: BoxFut<_> = Box::pin(fut);
                     match drive(&mut inner, 16) {
                         Driven::Ready(r) => classify(Ok(r)),
@@ -259,15 +273,21 @@ fn c08(cases_path: &str, quick: bool, out: &mut dyn Write) {
                     continue;
                 }
                 let body = if same { render_tokens_with(&top, &inner, true) } else { body.clone() };
-                let r = std::panic::catch_unwind(|| run_op(op, &body));
-                let (outcome, errs, detail) = r.unwrap_or_else(|_| ("panic".into(), vec![], String::new()));
-                writeln!(
-                    out,
-                    "{}",
-                    json!({"ev": "c08", "case": k, "type": ty, "op": op, "top": top, "inner": inner, "same": same,
-                           "outcome": outcome, "errs": errs, "detail": detail})
-                )
-                .unwrap();
+                // every reply in both namespace styles: default namespace, and the base namespace bound to a prefix
+                for pfx in [false, true] {
+                    if pfx && (same || (quick && k % 3 != 0 && nerr == 0)) {
+                        continue;
+                    }
+                    let r = std::panic::catch_unwind(|| run_op_ns(op, &body, pfx));
+                    let (outcome, errs, detail) = r.unwrap_or_else(|_| ("panic".into(), vec![], String::new()));
+                    writeln!(
+                        out,
+                        "{}",
+                        json!({"ev": "c08", "case": k, "type": ty, "op": op, "top": top, "inner": inner, "same": same, "prefixed": pfx,
+                               "outcome": outcome, "errs": errs, "detail": detail})
+                    )
+                    .unwrap();
+                }
             }
         }
     }
@@ -364,12 +384,18 @@ fn attempt_ordered(ws: &mut WSess, c: &Value, rev: bool) -> (bool, String, Strin
     }
     let (sent, local) = match op {
         "get" => go!(Get, move |b| b.filter(filter).finish()),
-        "get-config" => go!(GetConfig<Opaque>, move |b| b.source(ds(src))?.filter(filter)?.finish()),
+        "get-config" => {
+            let src = src.to_string();
+            go!(GetConfig<Opaque>, move |b| {
+                let b = if src == "none" { b } else { b.source(ds(&src))? };
+                b.filter(filter)?.finish()
+            })
+        }
         "edit-config" => {
             let (tgt, scheme, src, testopt, erropt) =
                 (tgt.to_string(), scheme.to_string(), src.to_string(), testopt.to_string(), erropt.to_string());
             go!(EditConfig<Raw>, move |b| {
-                let mut b = b.target(ds(&tgt))?;
+                let mut b = if tgt == "none" { b } else { b.target(ds(&tgt))? };
                 b = match testopt.as_str() {
                     "test-then-set" => b.test_option(TestOption::TestThenSet)?,
                     "set" => b.test_option(TestOption::Set)?,
@@ -384,6 +410,8 @@ fn attempt_ordered(ws: &mut WSess, c: &Value, rev: bool) -> (bool, String, Strin
                 };
                 if src == "url" {
                     b.url(url_for(&scheme))?.finish()
+                } else if src == "none" {
+                    b.finish()
                 } else {
                     b.config(Raw("<a/>".into())).finish()
                 }
@@ -392,9 +420,11 @@ fn attempt_ordered(ws: &mut WSess, c: &Value, rev: bool) -> (bool, String, Strin
         "copy-config" => {
             let (tgt, src) = (tgt.to_string(), src.to_string());
             go!(CopyConfig, move |b| {
-                let b = b.target(ds(&tgt))?;
+                let b = if tgt == "none" { b } else { b.target(ds(&tgt))? };
                 if src == "config" {
                     b.config("<a/>".into()).finish()
+                } else if src == "none" {
+                    b.finish()
                 } else {
                     b.source(ds(&src))?.finish()
                 }
@@ -405,6 +435,8 @@ fn attempt_ordered(ws: &mut WSess, c: &Value, rev: bool) -> (bool, String, Strin
             go!(DeleteConfig, move |b| {
                 if tgt == "url" {
                     b.url(url_for(&scheme))?.finish()
+                } else if tgt == "none" {
+                    b.finish()
                 } else {
                     b.target(ds(&tgt))?.finish()
                 }
@@ -412,17 +444,19 @@ fn attempt_ordered(ws: &mut WSess, c: &Value, rev: bool) -> (bool, String, Strin
         }
         "lock" => {
             let tgt = tgt.to_string();
-            go!(Lock, move |b| b.target(ds(&tgt))?.finish())
+            go!(Lock, move |b| if tgt == "none" { b.finish() } else { b.target(ds(&tgt))?.finish() })
         }
         "unlock" => {
             let tgt = tgt.to_string();
-            go!(Unlock, move |b| b.target(ds(&tgt))?.finish())
+            go!(Unlock, move |b| if tgt == "none" { b.finish() } else { b.target(ds(&tgt))?.finish() })
         }
         "validate" => {
             let src = src.to_string();
             go!(Validate, move |b| {
                 if src == "config" {
                     b.config("<a/>".into()).finish()
+                } else if src == "none" {
+                    b.finish()
                 } else {
                     b.source(ds(&src))?.finish()
                 }
@@ -487,6 +521,61 @@ fn attempt_ordered(ws: &mut WSess, c: &Value, rev: bool) -> (bool, String, Strin
     (sent, local, wire)
 }
 
+/// What the request that went out uses, read off the bytes with the harness' own XML parser: the same record as a
+/// Wire!Content.  C09 is about this - whatever the caller asked for and however the request was built.
+fn derive_content(wire: &str) -> Option<Value> {
+    use vh::xmlgen::{parse_document, PElem, PNode};
+    let body = wire.strip_suffix(EOM).unwrap_or(wire);
+    let root = parse_document(body).ok()?;
+    let local = |n: &str| n.rsplit(':').next().unwrap_or(n).to_string();
+    let kids = |e: &PElem| -> Vec<PElem> { e.kids.iter().filter_map(|k| if let PNode::Elem(x) = k { Some(x.clone()) } else { None }).collect() };
+    let op_el = kids(&root).into_iter().next()?;
+    let op = local(&op_el.name);
+    let child = |e: &PElem, n: &str| kids(e).into_iter().find(|k| local(&k.name) == n);
+    let store = |e: Option<PElem>| -> (String, String) {
+        // (datastore | "url" | "config" | "none", url scheme | "none")
+        match e {
+            None => ("none".into(), "none".into()),
+            Some(e) => match kids(&e).into_iter().next() {
+                None => ("none".into(), "none".into()),
+                Some(k) => {
+                    let n = local(&k.name);
+                    if n == "url" {
+                        let t = k.text();
+                        ("url".into(), t.trim().split("://").next().unwrap_or("").to_lowercase())
+                    } else {
+                        (n, "none".into())
+                    }
+                }
+            },
+        }
+    };
+    let (mut tgt, mut scheme) = store(child(&op_el, "target"));
+    let (mut src, s2) = store(child(&op_el, "source"));
+    if scheme == "none" {
+        scheme = s2;
+    }
+    if child(&op_el, "config").is_some() {
+        src = "config".into();
+    }
+    if let Some(u) = child(&op_el, "url") {
+        // edit-config: <url> directly below the operation
+        src = "url".into();
+        scheme = u.text().trim().split("://").next().unwrap_or("").to_lowercase();
+    }
+    if op == "validate" || op == "get-config" {
+        tgt = "none".into();
+    }
+    let filt = child(&op_el, "filter").map(|f| f.attr("type").unwrap_or("subtree").to_string()).unwrap_or_else(|| "none".into());
+    let text_of = |n: &str| child(&op_el, n).map(|e| e.text().trim().to_string());
+    let known_scheme = ["file", "http", "ftp", "https"].contains(&scheme.as_str()) || scheme == "none";
+    Some(json!({"op": op, "tgt": tgt, "src": src, "filt": filt, "scheme": if known_scheme { scheme } else { "other".into() },
+                "confirmed": child(&op_el, "confirmed").is_some(), "timeout": child(&op_el, "confirm-timeout").is_some(),
+                "persist": child(&op_el, "persist").is_some(), "persistid": child(&op_el, "persist-id").is_some(),
+                "testopt": text_of("test-option").unwrap_or_else(|| "none".into()),
+                "erropt": text_of("error-option").unwrap_or_else(|| "none".into())}))
+}
+
 /// Does the request on the wire carry the content (operation element and the parameters)?
 fn wire_matches(c: &Value, wire: &str) -> bool {
     let op = c["op"].as_str().unwrap();
@@ -532,7 +621,14 @@ fn wire_matches(c: &Value, wire: &str) -> bool {
 
 fn c09(contents_path: &str, capsets_path: &str, out: &mut dyn Write) {
     let v: Value = serde_json::from_str(&std::fs::read_to_string(contents_path).unwrap()).unwrap();
-    let contents = v["contents"].as_array().unwrap();
+    let mut all: Vec<Value> = v["contents"].as_array().unwrap().iter().map(|c| { let mut c = c.clone(); c["complete"] = json!(true); c }).collect();
+    // requests built with a mandatory parameter left out: whatever the library makes of them, what goes out must be permitted
+    for c in v["incomplete"].as_array().into_iter().flatten() {
+        let mut c = c.clone();
+        c["complete"] = json!(false);
+        all.push(c);
+    }
+    let contents = &all;
     let capsets: Value = serde_json::from_str(&std::fs::read_to_string(capsets_path).unwrap()).unwrap();
     for (k, caps) in capsets.as_array().unwrap().iter().enumerate() {
         let caps = strs(caps);
@@ -559,9 +655,15 @@ fn c09(contents_path: &str, capsets_path: &str, out: &mut dyn Write) {
                     "sent": sent, "local": if okc { "" } else { "local" }, "wire_ok": sent})).unwrap();
                 continue;
             }
-            let wire_ok = !sent || wire_matches(c, &wire);
-            writeln!(out, "{}", json!({"ev": "c09", "case": k * 1000 + j, "capset": k, "content": j, "caps": caps, "c": c,
-                "sent": sent, "local": local.chars().take(120).collect::<String>(), "wire_ok": wire_ok})).unwrap();
+            let wire_ok = !sent || wire_matches(c, &wire) || c["complete"] == false;
+            let mut ev = json!({"ev": "c09", "case": k * 1000 + j, "capset": k, "content": j, "caps": caps, "c": c,
+                "sent": sent, "local": local.chars().take(120).collect::<String>(), "wire_ok": wire_ok});
+            if sent {
+                if let Some(d) = derive_content(&wire) {
+                    ev["d"] = d;
+                }
+            }
+            writeln!(out, "{ev}").unwrap();
             // the same content with the parameter-setting builder calls in the opposite order
             let nopts = ["confirmed", "timeout", "persist", "persistid"].iter().filter(|f| c[**f].as_bool().unwrap_or(false)).count();
             if c["op"] == "commit" && nopts >= 2 {
@@ -604,6 +706,18 @@ const EXTRA_CAPS: [&str; 4] = [
     "http://xml.juniper.net/dmi/system/1.0",
 ];
 
+fn lookalikes(c: &Value) -> Vec<&'static str> {
+    match c["extra"].as_str().unwrap_or("none") {
+        // the XML namespace of the protocol, which many servers list next to the capabilities
+        "ns-form" => vec!["urn:ietf:params:xml:ns:netconf:base:1.0"],
+        // the YANG module of the base protocol (RFC 6241 section 10)
+        "yang-module" => vec!["urn:ietf:params:xml:ns:netconf:base:1.0?module=ietf-netconf&revision=2011-06-01"],
+        "other-versions" => vec!["urn:ietf:params:netconf:base:1.0.1", "urn:ietf:params:netconf:base:10", "urn:ietf:params:netconf:base:2.0"],
+        "capability-form" => vec!["urn:ietf:params:netconf:capability:base:1.0", "urn:ietf:params:netconf:base"],
+        _ => vec![],
+    }
+}
+
 fn hello_case_xml(c: &Value) -> String {
     let base = strs(&c["base"]);
     let sid = c["sid"].as_str().unwrap();
@@ -624,6 +738,10 @@ fn hello_case_xml(c: &Value) -> String {
     caps.push_str(&format!("<{p}capability>{JUNOS_CAP}</{p}capability>"));
     // capabilities the library has no name for are still part of what the server said
     for u in EXTRA_CAPS {
+        caps.push_str(&format!("<{p}capability>{}</{p}capability>", u.replace('&', "&amp;")));
+    }
+    // capabilities that look like a base-protocol capability and are none
+    for u in lookalikes(c) {
         caps.push_str(&format!("<{p}capability>{}</{p}capability>", u.replace('&', "&amp;")));
     }
     let sid_el = |t: &str| format!("<{p}session-id>{t}</{p}session-id>");
@@ -682,6 +800,7 @@ fn c12(cases_path: &str, out: &mut dyn Write) {
             hello_caps.push("urn:ietf:params:netconf:capability:candidate:1.0".into());
             hello_caps.push(JUNOS_CAP.into());
             hello_caps.extend(EXTRA_CAPS.iter().map(|u| u.to_string()));
+            hello_caps.extend(lookalikes(c).iter().map(|u| u.to_string()));
             hello_caps.sort();
             let mut ev = json!({"ev": "c12", "case": k, "c": c, "client_base": client_base, "hello_caps": hello_caps,
                                 "client_hello_framing": if client_hello.ends_with(EOM) { "eom" } else { "other" }});
@@ -893,6 +1012,13 @@ fn class_text(c: &str) -> &'static str {
         "delim" => "]]>]]>",
         "nonascii" => "\u{e9}\u{6f22}",
         "space" => " x ",
+        // text that a "normaliser" would rewrite: dot segments, percent-encoded unreserved characters and
+        // lower-case hex digits, upper-case letters (in a URL: scheme, host), a backslash, a control character
+        "dotseg" => "a/../b/./c",
+        "pctenc" => "%7Euser%2fx",
+        "upcase" => "AbC",
+        "bslash" => "d\\e",
+        "tab" => "f\tg",
         _ => "",
     }
 }
@@ -936,6 +1062,7 @@ fn c10(cases_path: &str, out: &mut dyn Write) {
                 "xpath-get" => { let (s, l) = go!(Get, move |b| b.filter(Some(Filter::XPath(val))).finish()); (s, l, "@select", false) }
                 "url-edit" => { let (s, l) = go!(EditConfig<Raw>, move |b| b.target(Datastore::Candidate)?.url(format!("file:///cfg/{val}?a=1&b={val}"))?.finish()); (s, l, "url", false) }
                 "url-delete" => { let (s, l) = go!(DeleteConfig, move |b| b.url(format!("http://h.example/p/{val}?x={val}&y=2"))?.finish()); (s, l, "url", false) }
+                "url-host" => { let (s, l) = go!(DeleteConfig, move |b| b.url(format!("http://{val}.Example.COM/Cfg/{val}"))?.finish()); (s, l, "url", false) }
                 "text-config" => { let (s, l) = go!(LoadConfiguration<_>, move |b| b.source(Config::new(val, Text, Merge)).finish()); (s, l, "configuration-text", false) }
                 "json-config" => { let (s, l) = go!(LoadConfiguration<_>, move |b| b.source(Config::new(val, Json, Merge)).finish()); (s, l, "configuration-json", false) }
                 "set-config" => { let (s, l) = go!(LoadConfiguration<_>, move |b| b.source(Config::new(val, Text, Set)).finish()); (s, l, "configuration-set", false) }
@@ -975,6 +1102,7 @@ fn c10(cases_path: &str, out: &mut dyn Write) {
             let expect = match param.as_str() {
                 "url-edit" => format!("file:///cfg/{value}?a=1&b={value}"),
                 "url-delete" => format!("http://h.example/p/{value}?x={value}&y=2"),
+                "url-host" => format!("http://{value}.Example.COM/Cfg/{value}"),
                 "subtree-filter" | "edit-fragment" | "copy-fragment" | "edit-opaque" | "load-opaque" => format!("{value}|{value}"),
                 _ => value.clone(),
             };
